@@ -31,6 +31,7 @@ class Bounds:
     float_pool: bool = False  # float leaves from a finite pool (str(float) / int(float) realise)
     str_pool: bool = False  # str leaves from a finite pool (int(str) / dict lookups realise)
     distinct_sets: bool = False  # no duplicate items at set-typed positions (C06 / C18 domain)
+    td_extra: bool = False  # TypedDict values may carry an undeclared key (C04)
 
     def as_dict(self):
         return dict(self.__dict__)
@@ -397,8 +398,8 @@ def containers(x, acc=None):
         for v in x.values():
             containers(v, acc)
     elif dc.is_dataclass(x) and not isinstance(x, type):
-        for v in vars(x).values():
-            containers(v, acc)
+        for f in dc.fields(x):
+            containers(getattr(x, f.name, None), acc)
     return acc
 
 
@@ -469,6 +470,10 @@ class Val:
             finally:
                 self.hashed -= k in ("set", "fset")
             self.constrain(cs, items, "arr")
+            if dict(cs).get("unique"):
+                for x in items:
+                    if isinstance(x, float) and x != x:
+                        raise Assume("NaN under uniqueItems")
             if k in ("list", "seq"):
                 return items
             if k == "set":
@@ -532,7 +537,7 @@ class Val:
                 continue
             vals[f.name] = self.val(fsp, depth - 1, tuple(f.schema))
         if kind == "typeddict":
-            if c.flag("extra"):
+            if self.b.td_extra and c.flag("extra"):
                 vals["zz"] = c.pick([1, "x", None, [2]], "xv")  # undeclared key; concrete (Any position)
             self.constrain(cs, vals, "obj")
             return vals
